@@ -14,7 +14,7 @@ def main():
     tmp = tempfile.mkdtemp(prefix="cctpthorough-")
     corpus = {}
     try:
-        for kind, extra in (("mutants", ["--only", pid + "-", "--props", pid]), ("benign", ["--props", pid])):
+        for kind, extra in (("mutants", ["--expect", pid, "--props", pid]), ("benign", ["--props", pid])):
             out = os.path.join(tmp, kind + ".json")
             subprocess.run([os.path.join(HERE, "tools", "corpus.py"), kind, "--json", out, "-j", "10"] + extra, stdout=subprocess.DEVNULL, stderr=subprocess.DEVNULL)
             if os.path.exists(out):
